@@ -16,7 +16,11 @@ def hexs(s):
     return s.encode().hex()
 
 
-def rec(name, rtype=33, ttl=120, port=80):
+G_TTL = [120]      # TTL of the records of the event being generated (a goodbye, TTL 0, conflicts like any other record)
+
+
+def rec(name, rtype=33, ttl=None, port=80):
+    ttl = G_TTL[0] if ttl is None else ttl
     return "%s,%d,0,%d,n,%s,-,0,0,%d,_,." % (hexs(name), rtype, ttl, hexs("h.local."), port)
 
 
@@ -70,8 +74,9 @@ def apply(m, kind, lines, base):
 
 
 def gen_schedule(rng, base, n):
-    m, lines = Mirror(), ["NEW 0 prober " + rec(base + TAIL, rtype=rng.choice([33, 33, 16]))]
+    m, lines = Mirror(), ["NEW 0 prober " + rec(base + TAIL, rtype=rng.choice([33, 33, 16]), ttl=120)]
     for _ in range(n):
+        G_TTL[0] = rng.choice([120, 120, 120, 0, 0, 4500, 1])
         if rng.random() < 0.5:
             apply(m, rng.choice(["conflict", "conflict", "conflict2", "earlier", "later", "othertype", "query"]), lines, base)
         else:
